@@ -124,6 +124,16 @@ func verifHarness_C04_onion() {
 		r.GET("/r4", m4)
 		exp["/g/r4"] = verifCat(gids, inner, m4id)
 
+		// sibling routes with their own middleware, registered after the group's chain has grown
+		m8, m8id := main()
+		r8h, r8 := p.mk(1)
+		r.GET("/r8", m8, r8h...)
+		exp["/g/r8"] = verifCat(gids, inner, r8, m8id)
+		m9, m9id := main()
+		r9h, r9 := p.mk(1 + d)
+		r.GET("/r9", m9, r9h...)
+		exp["/g/r9"] = verifCat(gids, inner, r9, m9id)
+
 		// routes that already carry their middleware when they are registered
 		m6, m6id := main()
 		r6h, r6 := p.mk(1 + d)
@@ -154,7 +164,7 @@ func verifHarness_C04_onion() {
 	}
 	globals := verifCat(g1, g2, g3)
 
-	targets := []string{"/r0", "/g/r1", "/g/r2", "/g/h/r3", "/g/r4", "/r5", "/nowhere", "/r0", "/g/r6", "/g/r7"}
+	targets := []string{"/r0", "/g/r1", "/g/r2", "/g/h/r3", "/g/r4", "/r5", "/nowhere", "/r0", "/g/r6", "/g/r7", "/g/r8", "/g/r9"}
 	t := verifChoice("target", len(targets))
 	method := "GET"
 	var chain []int
